@@ -3,8 +3,10 @@ package sch
 import (
 	"fmt"
 	"sort"
+	"strings"
 
 	"github.com/uhn/ggql/pkg/ggql"
+	"verifharness/gq"
 )
 
 // IntrospectionQuery is the full introspection request; %s is the includeDeprecated argument.
@@ -22,7 +24,7 @@ const introspectionQuery = `query Intro {
     directives { name description locations args { ...IV } }
   }
 }
-fragment IV on __InputValue { name description type { ...TR } }
+fragment IV on __InputValue { name description type { ...TR } defaultValue }
 fragment TR on __Type { kind name ofType { kind name ofType { kind name ofType { kind name ofType { kind name } } } } }
 `
 
@@ -66,9 +68,31 @@ func argsView(args []interface{}) map[string]interface{} {
 	out := map[string]interface{}{}
 	for _, a := range args {
 		am := m(a)
-		out[str(am["name"])] = map[string]interface{}{"desc": str(am["description"]), "type": typeView(m(am["type"]))}
+		tv := typeView(m(am["type"]))
+		out[str(am["name"])] = map[string]interface{}{"desc": str(am["description"]), "type": tv, "def": defView(am["defaultValue"], tv)}
 	}
 	return out
+}
+
+// defView reads a defaultValue back: the value the text denotes, as Introspect!ArgsView has it.  A default of a String or
+// ID position is given as it is (ggql's tests pin that), every other default as a schema would write it.
+func defView(x interface{}, typeView string) interface{} {
+	if x == nil {
+		return gq.Null()
+	}
+	text, ok := x.(string)
+	if !ok {
+		return map[string]interface{}{"k": "other", "v": fmt.Sprintf("defaultValue is no String: %T:%v", x, x)}
+	}
+	base := strings.TrimSuffix(typeView[:strings.Index(typeView, ":")], "!")
+	if base == "String" || base == "ID" {
+		return gq.Str(text)
+	}
+	v, err := ggql.ParseValueString(text)
+	if err != nil {
+		return map[string]interface{}{"k": "other", "v": fmt.Sprintf("defaultValue %q is not the text of a value: %v", text, err)}
+	}
+	return gq.ArgToValue(v)
 }
 
 func names2(ts []interface{}) []interface{} {
